@@ -80,6 +80,7 @@ extern size_t g_read_calls;
 extern uint64_t g_in_expected; extern size_t g_in_appended;
 #define tcp_incoming_append(self, pkt) do { \
     __CPROVER_assert((pkt).seq_nr == g_in_expected, "[C05.inorder] a packet is appended to the receive stream only when it carries the next expected sequence number"); \
+    __CPROVER_assert((pkt).type == PKT_payload || (pkt).type == PKT_error, "[C05.inorder] only payload and end-of-file / error packets enter the receive stream"); \
     g_in_expected = g_in_expected + 1; g_in_appended = g_in_appended + 1; pl_push_back(&(self)->m_incoming_queue, (pkt)); } while (0)
 /* m_outgoing_packets.front(): the retransmission queue only ever receives packets from packet_dropped(), whose
  * precondition is PKT_VALID and which removes the packet's sequence number from the outstanding map ([C06.flight]).
